@@ -744,6 +744,8 @@ var structuredTemplates = []string{
 	"for x ; do a ; b ; done",
 	"case x in a ) b ; c ;; d | e ) f ; g ;; esac",
 	"case x in ( a ) b ;; esac",
+	"case x in a ) b ; esac",
+	"case x in a ) if b ; then c ; fi\nesac",
 	"{ a ; b ; }",
 	"( a ; b )",
 	"f ( ) { a ; b ; }",
@@ -771,6 +773,22 @@ var structuredTemplates = []string{
 	"case x in a ) b ;; ;; esac",
 	"{ a ; } }",
 	"( a ) )",
+}
+
+// SubstWrapped: every valid structured template as the body of a command substitution (backquotes, $( ),
+// bare, double-quoted, in an assignment), i.e. with its last reserved word right before the closing delimiter.
+// (`$( ` with a space: `$((` is the documented no-backtracking difference.)
+func SubstWrapped() []string {
+	var out []string
+	for _, src := range structuredTemplates {
+		if strings.HasPrefix(src, "if a ; then b ; else c ; else d") {
+			break // the invalid-by-construction templates start here
+		}
+		for _, w := range [][2]string{{"echo `", "`"}, {"echo $( ", ")"}, {"echo \"`", "`\""}, {"echo \"$( ", ")\""}, {"x=`", "`"}, {"x=$( ", ")"}, {"echo `", " `"}, {"echo `echo $( ", ")`"}} {
+			out = append(out, w[0]+src+w[1])
+		}
+	}
+	return out
 }
 
 func firstTok(k string) Tok {
